@@ -193,6 +193,10 @@ pub fn sgr_bfs_system() -> WinconSys {
     for t in ["a", "é", "\n", "b c"] {
         sys.push(t.as_bytes().to_vec(), &[]);
     }
+    // C0 controls: the whitespace ones are text, the others (VT, BS, NUL, ...) are not - also right after text
+    for t in [&b"\x0b"[..], b"\x08", b"\x00", b"\x0c", b"\r", b"\t", b"a\x0bb", b"\x1b[1ma\x08\x0b"] {
+        sys.push(t.to_vec(), &[]);
+    }
     for g in sgr_groups() {
         sys.push(seq_of(&[g]), &[g]);
     }
